@@ -525,8 +525,11 @@ def drive(prop, tier, seed, nshards, budget_s, only=None):
                 known_hits_replay[res] += 1
 
     # 2. generated search, one fresh interpreter per shard
-    work = os.path.join(HERE, '.work', prop)
-    os.makedirs(work, exist_ok=True)
+    # a private scratch directory per run (concurrent runs of the same check must not share shard files)
+    os.makedirs(os.path.join(HERE, '.work'), exist_ok=True)
+    import tempfile
+
+    work = tempfile.mkdtemp(prefix=prop + '-', dir=os.path.join(HERE, '.work'))
     procs = []
     env = dict(os.environ)
     env['PYTHONHASHSEED'] = '0'
@@ -568,6 +571,10 @@ def drive(prop, tier, seed, nshards, budget_s, only=None):
                 pass
             harness_errors.append({'sub': '*', 'error': 'shard %d produced no result' % i, 'traceback': tail})
 
+    import shutil
+
+    if not harness_errors:
+        shutil.rmtree(work, ignore_errors=True)
     merged = merge(results)
     merged['violations'] = violations + merged['violations']
     # pooled rate clauses (exact binomial on the totals over all shards)
